@@ -162,8 +162,10 @@ def log2BoundsFloatPrimNoStd (isF64 : Bool) (bits : Nat) : Option (Float32 × Fl
   | some (some (m, e)) =>
     if m = 0 then some (negInf, negInf)
     else
+      -- widened by one ulp on each side since /repo (nostd-float-log2-bounds-outward); before, the rounded
+      -- sums were returned as they were (f32::from_bits(3): lb == ub below the true logarithm)
       let (lb, ub) := log2BoundsPrimNoStd m
-      some (lb + Float32.ofInt e, ub + Float32.ofInt e)
+      some (nextDown (lb + Float32.ofInt e), nextUp (ub + Float32.ofInt e))
 
 -- ---------------------------------------------------------------- exact enclosure test
 
